@@ -244,7 +244,7 @@ void otsu_impl(SrcView const& src_view, DstView const& dst_view, threshold_direc
             for (std::ptrdiff_t x = 0; x < src_view.width(); x++)
             {
                 if (src_it[x] < min) min = src_it[x];
-                if (src_it[x] > min) min = src_it[x];
+                if (src_it[x] > max) max = src_it[x];
             }
         }
 
@@ -255,7 +255,8 @@ void otsu_impl(SrcView const& src_view, DstView const& dst_view, threshold_direc
 
             for (std::ptrdiff_t x = 0; x < src_view.width(); x++)
             {
-                histogram[((src_it[x] - min) * 255) / (max - min)]++;
+                // a constant image has max == min: every pixel falls into the first bin
+                histogram[max == min ? 0 : ((src_it[x] - min) * 255) / (max - min)]++;
             }
         }
     }
